@@ -312,7 +312,11 @@ package capnp
 //@   ensures [C02] depth: implies(ptr.seg != nil && ptr.flags.ptrType() != interfacePtrType, depthLimit >= 1 && ptr.depthLimit == depthLimit-1)
 //@   -- every struct or list handed out was charged to the traversal budget with its read size
 //@   ensures [C02] chargedStruct: implies(ptr.seg != nil && ptr.flags.ptrType() == structPtrType, M(atomicDrop()) == szBytes(ptr.size))
-//@   ensures [C02] chargedList: implies(ptr.seg != nil && ptr.flags.ptrType() == listPtrType, atomicDrop() == uint64(ptr.List().readSize()))
+//@   ensures [C02] chargedList: implies(ptr.seg != nil && ptr.flags.ptrType() == listPtrType && szBytes(ptr.size) != 0,
+//@           M(atomicDrop()) == M(int32(ptr.lenOrCap))*szBytes(ptr.size))
+//@   -- a zero-sized list element counts as one word
+//@   ensures [C02] chargedZeroSized: implies(ptr.seg != nil && ptr.flags.ptrType() == listPtrType && szBytes(ptr.size) == 0 && 8*M(int32(ptr.lenOrCap)) <= mMaxSeg(),
+//@           M(atomicDrop()) == 8*M(int32(ptr.lenOrCap)))
 
 // ---------------------------------------------------------------- Arena (assumed interface contracts)
 
